@@ -16,7 +16,7 @@ func checkC05(c *Ctx, r *Report) {
 		"(O-TFDT) every Fragment method that sets the track fragment decode time does so under a test on the sample count of the FIRST run of the track (TrafBox.Trun), so a later run cannot overwrite it; " +
 		"(O-PAIR) every Fragment method that appends samples to a run also accounts their data in the mdat; (O-NR) every CreateTrun(f.nextTrunNr) is followed by an increment of nextTrunNr; " +
 		"(DEP) the data offset stored in each trun depends on Moof.Size(), Mdat.HeaderSize(), the preceding runs' SizeOfData() and the write order; the mdat offset handed to TrunBox.GetFullSamples depends on " +
-		"tfhd.BaseDataOffset / moof.StartPos, trun.DataOffset and mdat.PayloadAbsoluteOffset(); defaults applied to samples depend on tfhd then trex; (O-EQ) trun optimisation decides 'all samples equal' with == / != only. " +
+		"tfhd.BaseDataOffset / moof.StartPos, trun.DataOffset and mdat.PayloadAbsoluteOffset(); defaults applied to samples depend on tfhd then trex; (DEP lazy-amount) the amount added to the lazy mdat size by AddSample/AddSamples/AddSampleToTrack is the size of the samples being added; (O-COPY) MdatBox.Data, which AddSampleData grows with append, is never assigned a caller's slice directly (SetData excepted by contract); (O-EQ) trun optimisation decides 'all samples equal' with == / != only. " +
 		"Decides these necessary conditions; does not decide numeric correctness of offsets, multi-track interleavings in general, or optimisation correctness."
 	r.Assume("dependence = intraprocedural SSA data dependence plus return-value dependence of repository callees (3 levels); control dependence is taken from dominating branches")
 	for _, m := range []string{"Fragment.Encode", "Fragment.EncodeSW"} {
@@ -206,6 +206,25 @@ func checkC05(c *Ctx, r *Report) {
 		_ = n
 		r.Floor("O-EQ", 3)
 	}
+	// the amount accounted in the lazy mdat size is the size of the samples being added, not of the whole run
+	for _, m := range []string{"Fragment.AddSample", "Fragment.AddSamples", "Fragment.AddSampleToTrack"} {
+		f := c.ssaFunc(r, "DEP", "mp4", m)
+		if f == nil {
+			continue
+		}
+		sts := storesTo(f, "MdatBox.lazyDataSize")
+		if len(sts) == 0 {
+			r.Bad("DEP", "mp4."+m+":lazy-amount", c.Pos(f.Pos()), "the lazy mdat size is not updated")
+			continue
+		}
+		for _, st := range sts {
+			requireDeps(c, r, "DEP", "mp4."+m+":lazy-amount", c.Pos(st.Pos()), st.Val, []string{"field:Sample.Size"}, []string{"call:TrunBox.SizeOfData"}, "amount added to the lazy mdat size")
+		}
+	}
+	if n := ruleNoAdoptThenAppend(c, r, "O-COPY"); n < 4 {
+		r.Undecided("O-COPY", "scope", "", "appended byte-slice fields not found")
+	}
+
 }
 
 // condTestsFirstRun: the condition depends on a SampleCount() call whose receiver is loaded from TrafBox.Trun.
@@ -271,4 +290,28 @@ func recvFromField(v ssa.Value, typeField string) bool {
 		return all
 	}
 	return false
+}
+
+// ruleTfdtFirstRun — O-TFDT on its own (also part of C11: decode times are conserved).
+func ruleTfdtFirstRun(c *Ctx, r *Report) {
+	for _, f := range c.RepoFuncs(IsLib) {
+		name := SSAFuncName(f)
+		if !strings.HasPrefix(name, "mp4.Fragment.") {
+			continue
+		}
+		for _, call := range callsIn(f, "TfdtBox.SetBaseMediaDecodeTime", false) {
+			ok := false
+			for _, cond := range controlConds(call.Block()) {
+				if condTestsFirstRun(cond) {
+					ok = true
+				}
+			}
+			if ok {
+				r.OK("O-TFDT", name, c.Pos(call.Pos()), "decode time is set under a test of the sample count of the track's first run (TrafBox.Trun)")
+			} else {
+				r.Bad("O-TFDT", name, c.Pos(call.Pos()), "the track fragment decode time is set without testing that the track's FIRST run (TrafBox.Trun) is still empty: a later run of the same track overwrites it")
+			}
+		}
+	}
+	r.Floor("O-TFDT", 4)
 }
